@@ -191,7 +191,7 @@ class WSStream:
         self.remote_close_code: Optional[int] = None
         self.task_group = task_group
         self.response: WebsocketResponseStartEvent
-        self.scope: WebsocketScope
+        self.scope: Optional[WebsocketScope] = None
         self.send = send
         # RFC 8441 for HTTP/2 says use http or https, ASGI says ws or wss
         self.scheme = "wss" if ssl else "ws"
@@ -255,6 +255,12 @@ class WSStream:
             await self._handle_events()
         elif isinstance(event, StreamClosed):
             self.closed = True
+            if self.scope is not None and self.state in {
+                ASGIWebsocketState.HANDSHAKE,
+                ASGIWebsocketState.RESPONSE,
+            }:
+                # Closed before the handshake was answered, nothing has been logged
+                await self.config.log.access(self.scope, None, time() - self.start_time)
             if self.app_put is not None:
                 if self.state in {ASGIWebsocketState.HTTPCLOSED, ASGIWebsocketState.CLOSED}:
                     code = CloseReason.NORMAL_CLOSURE.value
@@ -273,6 +279,7 @@ class WSStream:
             # Cleanup if required
             if self.state == ASGIWebsocketState.HANDSHAKE:
                 await self._send_error_response(500)  # This logs the access
+                self.state = ASGIWebsocketState.HTTPCLOSED
             elif self.state == ASGIWebsocketState.CONNECTED:
                 await self._send_wsproto_event(CloseConnection(code=CloseReason.INTERNAL_ERROR))
             await self.send(StreamClosed(stream_id=self.stream_id))
@@ -343,6 +350,7 @@ class WSStream:
                 await self.send(StreamClosed(stream_id=self.stream_id))
 
     async def _send_error_response(self, status_code: int) -> None:
+        was_closed = self.closed
         await self.send(
             Response(
                 stream_id=self.stream_id,
@@ -351,9 +359,11 @@ class WSStream:
             )
         )
         await self.send(EndBody(stream_id=self.stream_id))
-        await self.config.log.access(
-            self.scope, {"status": status_code, "headers": []}, time() - self.start_time
-        )
+        if was_closed or not self.closed:
+            # Otherwise closed whilst sending, which has been logged
+            await self.config.log.access(
+                self.scope, {"status": status_code, "headers": []}, time() - self.start_time
+            )
 
     async def _send_wsproto_event(self, event: WSProtoEvent) -> None:
         try:
